@@ -298,4 +298,24 @@ theorem weighted_mean_def (mc : List (Rat × Rat)) (h : 2 ≤ mc.length) :
 
 example : 2 ≤ [((1 : Rat), (2 : Rat)), (3, 4)].length := by decide
 
+/-- **ensemble_identical (per lag).** When every contributing track reports the same MSD `m` with the
+    same count `c` (an ensemble of `k ≥ 2` identical tracks), the ensemble value is `m` itself, its
+    variance is 0, the counts add up and the effective sample size is the number of tracks. -/
+theorem weighted_identical (m c : Rat) (k : Nat) (hk : 2 ≤ k) (hc : c ≠ 0) :
+    weightedMeanSd (List.replicate k (m, c)) = .ok ⟨m, 0, k * c, k⟩ := by
+  have hk0 : (k : Rat) ≠ 0 := by
+    have : (0 : Rat) < k := by exact_mod_cast (by omega : 0 < k)
+    exact ne_of_gt this
+  unfold weightedMeanSd
+  rw [if_neg (by simp; omega)]
+  simp only [List.map_replicate, sum_replicate_rat, sqr]
+  congr 1
+  have hm : (k : Rat) * (m * c) / (k * c) = m := by field_simp
+  rw [hm]
+  congr 1
+  · simp
+  · field_simp
+
+example : (2 : Nat) ≤ 3 ∧ (5 : Rat) ≠ 0 := by constructor <;> norm_num
+
 end Verif.C09
